@@ -193,7 +193,7 @@ def _nodes_with_values(case):
 PRESERVING = ['rename_files', 'wrap_ns', 'perm_meta', 'perm_inputs', 'perm_tasks', 'perm_uses', 'perm_keys', 'fmt_swap', 'add_ignored',
               'add_default', 'to_context', 'gv_change', 'add_absent_optional', 'wild_swap', 'multi_config']
 CHANGING = ['chg_value', 'chg_value', 'chg_value_deep', 'chg_obj_arg', 'retag', 'rewire', 'drop_optional', 'chg_context',
-            'chg_default_param']
+            'chg_default_param', 'swap_mounts']
 
 
 @st.composite
@@ -377,6 +377,11 @@ def rewrite(draw, case, kinds, n_max=3):
                 nss = sorted(n for n in gen.namespaces_of(case) if n)
                 layer = {'form': 'dict', 'global': {}, 'for_ns': {}}
                 where = draw(st.sampled_from(['global'] + nss))
+                # often a namespace that an earlier context layer already addresses (the layers are then merged per
+                # namespace - and the earlier layer may be used alone by another chain of the same process)
+                addressed = sorted({n for l in ctx['layers'] for n in l.get('for_ns', {})} & set(nss))
+                if addressed and draw(st.booleans()):
+                    where = draw(st.sampled_from(addressed))
                 v = draw(gen.value_for(ks[k]))
                 if where == 'global':
                     layer['global'][k] = v
@@ -399,6 +404,25 @@ def rewrite(draw, case, kinds, n_max=3):
                 for fi, pn, nd in _all_nodes(case):
                     if nd['module'] == mi:
                         nd['values'][p.get('cfg') or p['name']] = _mutate_deep(draw, p['default']['v'])
+        elif kind == 'swap_mounts':
+            # two mounts of one config node trade places: what was mounted `as left` is now `as right` and vice versa
+            cands = [nd for fi, pn, nd in _all_nodes(case)
+                     if len({u.get('ns') for u in nd['uses'] if u.get('ns')}) >= 2]
+            if cands:
+                nd = draw(st.sampled_from(cands))
+                us = [u for u in nd['uses'] if u.get('ns')]
+                a = draw(st.sampled_from(us))
+                b = draw(st.sampled_from([u for u in us if u['ns'] != a['ns']]))
+                a['ns'], b['ns'] = b['ns'], a['ns']
+        elif kind == 'rename_mount':
+            # the same pipeline mounted under another namespace name (x -> y): the tasks below keep their computation
+            # (contexts address namespaces by name, so only context-free cases are rewritten)
+            cands = [(nd, u) for fi, pn, nd in _all_nodes(case) for u in nd['uses'] if u.get('ns')]
+            if cands and not case.get('context'):
+                nd, u = draw(st.sampled_from(cands))
+                taken = {x.get('ns') for x in nd['uses']}
+                free = [n for n in ['y', 'n2', 'm', 'xn', 'train', 'k'] if n not in taken]
+                u['ns'] = draw(st.sampled_from(free))
         labels.append(kind)
     return case, prefix, labels
 
